@@ -15,7 +15,8 @@ def parse_del(ln):
 def gen_history(rng, nops):
     """returns list of (cmds, op descriptor).  Handle 0 = the array, handle 1 = scratch element."""
     n0 = rng.choice([0, 0, 1, 2, 3, 32])
-    ops = [(["NEW 0 1 arrx %d" % n0], ("new", n0))]
+    kinds = {}
+    ops = [(["NEW 0 1 arrx %d" % n0], ("new", n0, kinds))]
     uid = [10]
     model_len = [0]  # only a rough guide for index choice (the oracle recomputes exactly)
 
@@ -23,7 +24,8 @@ def gen_history(rng, nops):
         if rng.random() < 0.12:
             return ["NEW 1 - null"], None
         uid[0] += 1
-        kind = rng.choice(["int %d" % uid[0], "str " + b"el".hex(), "arr", "obj", "bool 1", "dbl 3ff8000000000000"])
+        kind = rng.choice(["int %d" % uid[0], "int %d" % uid[0], "str " + b"el".hex(), "arr", "obj", "bool 1", "dbl 3ff8000000000000"])
+        kinds[uid[0]] = kind.split()[0]
         return ["NEW 1 %d %s" % (uid[0], kind)], uid[0]
 
     def idx_choice(L):
@@ -78,6 +80,20 @@ def gen_history(rng, nops):
                 model_len[0] -= cnt
         elif r < 0.86:
             ops.append((["ASHRINK 0 %d" % rng.randrange(4)], ("shrink",)))
+        elif r < 0.875:
+            # the order by current value: sort, change one element in place (the array is not involved in that call), sort again with the same comparator;
+            # or sort, append through the lower-level handle of the same array (json_object_get_array + array_list_add), sort again
+            ops.append((["ASORT 0 v"], ("sortv",)))
+            for _ in range(rng.choice([1, 1, 2])):
+                if rng.random() < 0.7:
+                    ops.append((["ASETV 0 %d %d" % (rng.randrange(L + 1), rng.randrange(-3, uid[0] + 6))], ("setv",)))
+                else:
+                    c, u = newelem()
+                    ops.append((c + ["ALADD 0 1"], ("add", u)))
+                    model_len[0] += 1
+                ops.append((["ASORT 0 v"] if rng.random() < 0.8 else ["ASORT 0"], ("sortv",) ))
+                if ops[-1][0] == ["ASORT 0"]:
+                    ops[-1] = (["ASORT 0"], ("sort",))
         elif r < 0.94:
             ops.append((["ASORT 0"], ("sort",)))
             if rng.random() < 0.8:
@@ -104,6 +120,7 @@ def realize(ops, rng):
         exp = {"op": d}
         if k == "new":
             model = []
+            kinds, vals = d[2], {}
         elif k == "add":
             model.append(d[1])
             exp.update(ret=0, dels=[])
@@ -135,6 +152,17 @@ def realize(ops, rng):
         elif k == "sort":
             model.sort(key=lambda x: -1 if x is None else x)
             exp.update(dels=[])
+        elif k == "sortv":
+            model.sort(key=lambda x: (-1, -1) if x is None else (vals.get(x, x), x))
+            exp.update(dels=[])
+        elif k == "setv":
+            i, v = int(c[0].split()[2]), int(c[0].split()[3])
+            x = model[i] if i < len(model) else None
+            if x is not None and kinds.get(x) == "int":
+                vals[x] = v
+                exp.update(ret=1, dels=[])
+            else:
+                exp.update(ret=-9, dels=[])
         elif k == "bsearch":
             present = [x for x in model if x is not None]
             if present and rng.random() < 0.7:
@@ -280,7 +308,14 @@ def shard_fn(shard, nshards, seed, tier, exe, nhist):
                     u = op[2] if k in ("put", "ins") else None
                     if u is not None and (int(pl.split()[1]) != 1 or parse_del(pl) != [u]):
                         key, what = "failed-op-took-ownership/" + k, "after failed %s the caller's put gave %s" % (op, pl)
-            elif k == "sort":
+            elif k == "setv":
+                if int(opline.split()[1]) != exp["ret"]:
+                    key, what = "in-place-set", "%s returned %s, model says %d" % (ccmds[0], opline.split()[1], exp["ret"])
+                else:
+                    sh.count("element_changed_in_place_between_sorts" if exp["ret"] == 1 else "in_place_set_on_non_integer_or_missing_element")
+            elif k in ("sort", "sortv"):
+                if k == "sortv":
+                    sh.count("sorts_by_current_value")
                 if parse_del(opline):
                     key, what = "release/sort", "sort destroyed %s" % parse_del(opline)
             elif k == "bsearch":
